@@ -458,7 +458,46 @@ func symFmt(formatV value, args []value, fr *frame) value {
 			default:
 				panic(abortPath{"engine: unsupported format verb %" + string(verb) + " for a slice"})
 			}
-		case structure, *value, array, *omap, tuple:
+		case structure, *value:
+			// %v of a struct or of a pointer to a struct: {f1 f2 ...} / &{f1 f2 ...}
+			st, isStruct := x.(structure)
+			prefix := "{"
+			var stType *types.Struct
+			if pv, ok := x.(*value); ok {
+				if pv == nil {
+					for _, b := range []byte("<nil>") {
+						out = append(out, b)
+					}
+					break
+				}
+				st, isStruct = (*pv).(structure)
+				prefix = "&{"
+				if pt, ok := a.t.Underlying().(*types.Pointer); ok {
+					stType, _ = pt.Elem().Underlying().(*types.Struct)
+				}
+			} else {
+				stType, _ = a.t.Underlying().(*types.Struct)
+			}
+			if !isStruct || stType == nil || verb != 'v' || stType.NumFields() != len(st) {
+				panic(abortPath{fmt.Sprintf("engine: unsupported fmt argument %T for %%%c", x, verb)})
+			}
+			for _, b := range []byte(prefix) {
+				out = append(out, b)
+			}
+			for k, f := range st {
+				if k > 0 {
+					out = append(out, byte(' '))
+				}
+				ft := stType.Field(k).Type()
+				if ie, ok := f.(iface); ok {
+					ft, f = ie.t, ie.v
+				}
+				part := symFmt("%v", []value{iface{t: ft, v: f}}, fr)
+				pc, _ := strCells(part)
+				out = append(out, pc...)
+			}
+			out = append(out, byte('}'))
+		case array, *omap, tuple:
 			panic(abortPath{fmt.Sprintf("engine: unsupported fmt argument %T for %%%c", x, verb)})
 		case sym:
 			if verb == 'd' && spec == "%03" {
